@@ -163,7 +163,7 @@ def main() -> int:
     if not quick:
         try:
             import sys
-            sys.path.insert(0, "/repo")
+            sys.path.insert(0, __import__("os").environ.get("VERIF_REPO", "/repo"))
             from tests.helpers import generate_metadata_providers
             schemas = {"main.t1": ["ca", "cb"], "main.t2": ["cx", "cb"]}
             provs = generate_metadata_providers(schemas)
